@@ -125,8 +125,24 @@ func buildC18(model, parts, shape, appMode string, variant int) *c18Case {
 			c.Lines = append(c.Lines, mLine{ID: "deny ip any6 any6", Part: "v6", Permit: false, List: "a1", Idx: 3, Term: true})
 			c.Files["ipv6/router"] = v6 + bind
 		}
+		if hasV6 && variant%3 != 0 {
+			n := uid()
+			c.Files["ipv6/router"] += fmt.Sprintf("ipv6 route inside 1000:%x::/64 1000::1\n", n)
+			add(fmt.Sprintf("1000:%x::/64 ", n), "v6", false, true, fmt.Sprintf("route%d", n), 0)
+		}
 		if hasRaw {
 			raw := ""
+			if variant%3 != 0 {
+				// Other kinds of objects from raw: a route, an ACL of its
+				// own with an object-group, bound in the other direction.
+				n1, n2, n3 := uid(), uid(), uid()
+				raw += fmt.Sprintf("route inside 10.77.%d.0 255.255.255.0 10.1.1.9\n", n1)
+				raw += fmt.Sprintf("object-group network rawgroup\n network-object host 10.6.1.%d\n", n2)
+				raw += fmt.Sprintf("access-list a2 extended permit ip object-group rawgroup host 10.6.0.%d\naccess-group a2 out interface inside\n", n3)
+				add(fmt.Sprintf("10.77.%d.0 ", n1), "raw", false, true, fmt.Sprintf("route%d", n1), 0)
+				add(fmt.Sprintf("host 10.6.1.%d ", n2), "raw", false, true, "rawgroup", 0)
+				add(fmt.Sprintf("host 10.6.0.%d ", n3), "raw", false, true, "a2", 0)
+			}
 			for i, p := range pre {
 				id := fmt.Sprintf("10.7.0.%d", uid())
 				raw += fmt.Sprintf("access-list a1 extended %s ip host %s any4\n", act(p, "permit", "deny"), id)
@@ -178,7 +194,16 @@ func buildC18(model, parts, shape, appMode string, variant int) *c18Case {
 			if len(pre) == 0 {
 				raw = ""
 			}
-			c.Files["router.raw"] = raw + "interface Ethernet0\n ip access-group a1 in\n" + rawApp
+			extra := ""
+			if variant%3 != 0 {
+				n1, n2 := uid(), uid()
+				extra = fmt.Sprintf("ip route 10.77.%d.0 255.255.255.0 10.0.0.9\n", n1) +
+					fmt.Sprintf("ip access-list extended a2\n permit ip host 10.6.0.%d any\n", n2)
+				add(fmt.Sprintf("10.77.%d.0 ", n1), "raw", false, true, fmt.Sprintf("route%d", n1), 0)
+				add(fmt.Sprintf("host 10.6.0.%d ", n2), "raw", false, true, "a2", 0)
+				rawApp = " ip access-group a2 out\n" + rawApp
+			}
+			c.Files["router.raw"] = extra + raw + "interface Ethernet0\n ip access-group a1 in\n" + rawApp
 		}
 	case "Linux":
 		c.Device = ""
@@ -218,7 +243,13 @@ func buildC18(model, parts, shape, appMode string, variant int) *c18Case {
 					add("-s "+id+" ", "raw", true, p, "INPUT", len(pre)+i)
 				}
 			}
-			c.Files["router.raw"] = raw + "COMMIT\n"
+			raw += "COMMIT\n"
+			if variant%3 != 0 {
+				n1 := uid()
+				raw += fmt.Sprintf("ip route add 10.77.%d.0/24 via 10.0.0.9\n", n1)
+				add(fmt.Sprintf("10.77.%d.0/24 ", n1), "raw", false, true, fmt.Sprintf("route%d", n1), 0)
+			}
+			c.Files["router.raw"] = raw
 		}
 	case "PAN-OS":
 		vs := func(rules string, withName bool) string {
